@@ -342,6 +342,22 @@ func c11UfsDescriptors(dotu bool) Scenario {
 				vs.Idle()
 				vs.OpenFileHook = nil
 			}}},
+			{{"a file created whose name the host removes before the server looks at it again", func(rpc func(m *wire.Msg) *wire.Msg) {
+				rpc(twalk(0, 0, 1, "d"))
+				armed := true
+				vs.HostHook = func(op, path string) error {
+					if armed && (op == "lstat" || op == "stat") && strings.HasSuffix(path, "/gone") {
+						armed = false
+						os.Remove(path)
+					}
+					return nil
+				}
+				rpc(&wire.Msg{Type: wire.Tcreate, Fid: 1, Name: "gone", Perm: 0644, Mode: 1})
+				vs.HostHook = nil
+				// something is left open in any case, so that the history counts
+				rpc(twalk(0, 0, 2, "f"))
+				rpc(&wire.Msg{Type: wire.Topen, Fid: 2, Mode: 0})
+			}}},
 			{{"a file whose create was still under way in the host when a Tversion arrived", func(rpc func(m *wire.Msg) *wire.Msg) {
 				rpc(twalk(0, 0, 1, "d"))
 				gate := vs.NewSem(0)
@@ -399,7 +415,7 @@ func c11UfsDescriptors(dotu bool) Scenario {
 				vs.Idle()
 			}
 			x := vs.Run(nil, body, vs.Options{Horizon: 100000000})
-			vs.OpenFileHook = nil
+			vs.OpenFileHook, vs.HostHook = nil, nil
 			res.Evals++
 			res.Nontrivial++
 			res.Traces++
